@@ -43,9 +43,9 @@ __CPROVER_ensures(sq_thrown==1 && gk<nx ==> SQ_SAME(x[gk], __CPROVER_old(x[GKC(n
 
 /* std::is_sorted: assumed contract (libstdc++), result == "no adjacent descent" in ghost-index form */
 _Bool sq_is_sorted(const double* b, size_t n)
-__CPROVER_requires(n>=1 && __CPROVER_r_ok(b, n*sizeof(double)))
+__CPROVER_requires(n<=NXMAX && __CPROVER_r_ok(b, n*sizeof(double)))
 __CPROVER_assigns()
-__CPROVER_ensures(__CPROVER_return_value ==> (gk < n-1 ==> !(b[gk+1] < b[gk])))
+__CPROVER_ensures(__CPROVER_return_value ==> (gk < n && gk+1 < n ==> !(b[gk+1] < b[gk])))
 ;
 
 /* std::vector<double>::operator=(const vector&) for equal sizes: assumed contract (libstdc++) */
@@ -56,6 +56,8 @@ __CPROVER_ensures(gk<n ==> SQ_SAME(dst[gk], src[gk]))
 __CPROVER_ensures(gk2<n ==> SQ_SAME(dst[gk2], src[gk2]))
 ;
 #define SQ_VASSIGN(d,s,n) sq_vassign(d,s,n)
+/* iterator pair [b,e) of the argument vector -> (pointer, count) */
+#define SQ_IS_SORTED(b,e) sq_is_sorted((b),(size_t)((e)-(b)))
 
 /* vector overload: xs has xs_n elements; x=xs is a vector copy-assignment (SQ_VASSIGN: element copy) */
 void Set_xrange1(double* x, unsigned nx, const double* xs, size_t xs_n)
@@ -70,7 +72,9 @@ __CPROVER_ensures(sq_thrown==0 && gk<nx-1 && gk2==gk+1 ==> !(x[gk2]<x[gk]))     
 {
 //@BODY file=src/SQuIDS.cpp sig=/void\s+SQuIDS::Set_xrange\s*\(\s*const\s+std::vector/ rules=common
 //@SUB /xs\.size\(\)/xs_n/ min=1
-//@SUB /std::is_sorted\s*\(\s*xs\.begin\(\)\s*,\s*xs\.end\(\)\s*\)/sq_is_sorted(xs,xs_n)/ min=1
+//@SUB /xs\.end\(\)/(xs+xs_n)/ min=0
+//@SUB /xs\.begin\(\)/xs/ min=1
+//@SUB /std::is_sorted\s*\(/SQ_IS_SORTED(/ min=1
 //@SUB /(?<![\w.>])x\s*=\s*xs\s*;/SQ_VASSIGN(x,xs,xs_n);/ min=1
 }
 
